@@ -142,75 +142,96 @@ func TestVerifC19Behaviour(t *testing.T) {
 		bs = append(bs, built{c, httptest.NewServer(p)})
 	}
 
-	var wg sync.WaitGroup
-	var mu sync.Mutex
+	// The requests of a round run in parallel.  A verdict counts only when the process was not
+	// stalled during the round (every verdict here depends on timers), and a case is reported
+	// when it failed in two such rounds.
+	type verdict struct{ clause, msg string }
+	attempt := func(b built) verdict {
+		c := b.c
+		T := time.Duration(c.C.Rht) * time.Millisecond
+		bound := time.Duration(c.Out.Within)*time.Millisecond + c19Slack
+		cl := &http.Client{Timeout: bound + time.Duration(c.Delay)*time.Millisecond/4 + 2*time.Second, Transport: &http.Transport{DisableKeepAlives: true}}
+		t0 := time.Now()
+		resp, err := cl.Get(b.srv.URL + "/?d=" + strconv.Itoa(c.Delay))
+		el := time.Since(t0)
+		if err != nil {
+			if c.Out.Status == 504 {
+				return verdict{"not-cut-off", fmt.Sprintf("no response within %v (response-header timeout %v, upstream delay %d ms): %v", el, T, c.Delay, err)}
+			}
+			return verdict{"client-error", fmt.Sprintf("request failed after %v: %v", el, err)}
+		}
+		io.Copy(io.Discard, resp.Body)
+		resp.Body.Close()
+		switch {
+		case c.Out.Status == 504 && resp.StatusCode != 504:
+			return verdict{"not-cut-off", fmt.Sprintf("status %d after %v; the upstream needs %d ms, the response-header timeout is %v: want 504 within %v", resp.StatusCode, el, c.Delay, T, bound)}
+		case c.Out.Status == 504 && el > bound:
+			return verdict{"late", fmt.Sprintf("504 after %v, want within %v (timeout %v + slack)", el, bound, T)}
+		case c.Out.Status == 200 && resp.StatusCode != 200:
+			return verdict{"timely-upstream-not-served", fmt.Sprintf("status %d after %v; the upstream answers after %d ms, the response-header timeout is %v: want 200", resp.StatusCode, el, c.Delay, T)}
+		}
+		return verdict{}
+	}
 	var ran, retried int
 	var samples []string
-	for i, b := range bs {
-		wg.Add(1)
-		go func(i int, b built) {
-			defer wg.Done()
-			defer b.srv.Close()
-			c := b.c
-			T := time.Duration(c.C.Rht) * time.Millisecond
-			bound := time.Duration(c.Out.Within)*time.Millisecond + c19Slack
-			attempt := func() (clause, msg string, timing bool) {
-				cl := &http.Client{Timeout: bound + time.Duration(c.Delay)*time.Millisecond/4 + 2*time.Second, Transport: &http.Transport{DisableKeepAlives: true}}
-				t0 := time.Now()
-				resp, err := cl.Get(b.srv.URL + "/?d=" + strconv.Itoa(c.Delay))
-				el := time.Since(t0)
-				if err != nil {
-					if c.Out.Status == 504 {
-						return "not-cut-off", fmt.Sprintf("no response within %v (response-header timeout %v, upstream delay %d ms): %v", el, T, c.Delay, err), false
-					}
-					return "client-error", fmt.Sprintf("request failed after %v: %v", el, err), true
-				}
-				io.Copy(io.Discard, resp.Body)
-				resp.Body.Close()
-				switch {
-				case c.Out.Status == 504 && resp.StatusCode != 504:
-					return "not-cut-off", fmt.Sprintf("status %d after %v; the upstream needs %d ms, the response-header timeout is %v: want 504 within %v", resp.StatusCode, el, c.Delay, T, bound), false
-				case c.Out.Status == 504 && el > bound:
-					return "late", fmt.Sprintf("504 after %v, want within %v (timeout %v + slack)", el, bound, T), true
-				case c.Out.Status == 200 && resp.StatusCode != 200:
-					return "timely-upstream-not-served", fmt.Sprintf("status %d after %v; the upstream answers after %d ms, the response-header timeout is %v: want 200", resp.StatusCode, el, c.Delay, T), true
-				}
-				return "", "", false
-			}
-			var clause, msg string
-			for try := 0; try < 3; try++ {
-				var timing bool
-				clause, msg, timing = attempt()
-				mu.Lock()
-				ran++
-				if try > 0 {
-					retried++
-				}
-				mu.Unlock()
-				if clause == "" || !timing {
-					break // only verdicts that a stalled machine could cause are tried again
-				}
-			}
-			if clause != "" {
-				verifx.Fail(c, map[string]any{"sub": "behaviour", "kind": c.Kind, "clause": clause, "class": c.Class},
-					"%s transport, SetConfig(%s) after %s, upstream delay %d ms: %s", c.Kind, c.C.Name, c.First.Name, c.Delay, msg)
-			}
-			if i%17 == 3 {
-				bj, _ := json.Marshal(c)
-				mu.Lock()
-				if len(samples) < 3 {
-					samples = append(samples, string(bj))
-				}
-				mu.Unlock()
-			}
-		}(i, b)
+	strikes := map[int]int{}
+	last := map[int]verdict{}
+	pending := make([]int, len(bs))
+	for i := range pending {
+		pending[i] = i
 	}
-	wg.Wait()
+	valid, unstable := 0, false
+	for round := 0; round < 6 && len(pending) > 0 && valid < 2; round++ {
+		sw := verifx.WatchStalls()
+		res := make([]verdict, len(bs))
+		var wg sync.WaitGroup
+		for _, i := range pending {
+			wg.Add(1)
+			go func(i int) {
+				defer wg.Done()
+				res[i] = attempt(bs[i])
+			}(i)
+		}
+		wg.Wait()
+		ran += len(pending)
+		if round > 0 {
+			retried += len(pending)
+		}
+		if gap := sw.Stop(); gap > 150*time.Millisecond {
+			verifx.Emit(map[string]any{"kind": "note", "msg": fmt.Sprintf("round %d void: the process stalled for %v", round, gap)})
+			continue
+		}
+		valid++
+		var next []int
+		for _, i := range pending {
+			if res[i].clause != "" {
+				strikes[i]++
+				last[i] = res[i]
+				next = append(next, i)
+			}
+		}
+		pending = next
+	}
+	if len(pending) > 0 && valid < 2 {
+		unstable = true
+	}
+	for i, b := range bs {
+		b.srv.Close()
+		c := b.c
+		if strikes[i] >= 2 {
+			verifx.Fail(c, map[string]any{"sub": "behaviour", "kind": c.Kind, "clause": last[i].clause, "class": c.Class},
+				"%s transport, SetConfig(%s) after %s, upstream delay %d ms: %s", c.Kind, c.C.Name, c.First.Name, c.Delay, last[i].msg)
+		}
+		if i%17 == 3 && len(samples) < 3 {
+			bj, _ := json.Marshal(c)
+			samples = append(samples, string(bj))
+		}
+	}
 	nontrivial := 0
 	for _, b := range bs {
 		if b.c.Class != "zero" {
 			nontrivial++
 		}
 	}
-	verifx.Summary(map[string]any{"cases": len(cases), "ran": ran, "retried": retried, "distinct_nontrivial": nontrivial, "samples": samples})
+	verifx.Summary(map[string]any{"cases": len(cases), "ran": ran, "retried": retried, "unstable": unstable, "distinct_nontrivial": nontrivial, "samples": samples})
 }
